@@ -6,7 +6,7 @@ import json, os
 from fractions import Fraction as Fr
 from core import *
 
-NEEDS = ["Ring", "RingProofs", "Corr"]
+NEEDS = ["Ring", "RingProofs", "Corr", "Gamma"]      # Gamma: the guard of the adaptive-solver support stream
 
 # ---------------------------------------------------------------------------------------------- impl side (worker)
 def impl(case):
@@ -482,7 +482,30 @@ def model_outputs(ctx, case, tag):
         return f"(model evaluation failed: {e})"
 
 # ---------------------------------------------------------------------------------------------- shrinking
+def to_c11(case):
+    """the same circuit in c11's case format (plain delays only): used for the adaptive-solver support stream, whose worker, closed-form
+    reference and verdict live in c11.py"""
+    edges = [[s_, t_, w, "nokey" if ds in ("nokey", "none") else [ds]] for s_, t_, w, ds in case["edges"]]
+    return dict(dt=case["dt"], steps=case["steps"], vectorize=case["vectorize"], dde=0, nodes=case["nodes"], edges=edges, adaptive=True)
+
+def gen_adaptive(rng):
+    """two-layer delayed circuits (plain delays of >= 2 dt, undelayed edges, several delays per source, two classes) for solver='scipy'"""
+    while True:
+        c = gen_case(rng, rng.choice(["valid", "sibling"]))
+        if c.get("taps") or c.get("twins") or c.get("int_delays") or c.get("spread_sinks"):
+            continue
+        if any(n["cls"] > 1 for n in c["nodes"]):          # c11's worker knows the classes 0 and 1
+            continue
+        dt = Fr(c["dt"])
+        if any(e[3] == "none" or (e[3] != "nokey" and Fr(e[3]) <= dt) for e in c["edges"]):
+            continue                                        # (delays <= dt are dropped under adaptive steps: C10's threshold F4)
+        return dict(c, steps=min(c["steps"], 14), adaptive=True)
+
 def fails(ctx, case, tag):
+    if case.get("adaptive"):
+        import c11
+        r = run_impl(ctx, "c11", "impl_adaptive", [to_c11(case)], nworkers=1, per_case_timeout=180)[0]
+        return ("err" in r) or c11.adaptive_verdict(to_c11(case), r) is not None, r
     r = run_impl(ctx, "c09", "impl_conn" if case.get("conns") else "impl", [case], nworkers=1)[0]
     if isinstance(r, dict) and "err" in r:
         return True, r
@@ -519,6 +542,22 @@ def check(ctx):
             cases += [gen_case(ctx.rng, kind) for _ in range(n_viol)]
         cases += [gen_relay(ctx.rng) for _ in range(n_valid // 5)]
         cases += [gen_conn(ctx.rng) for _ in range(n_valid // 5)]
+    acases = [c for c in cases if c.get("adaptive")]; cases = [c for c in cases if not c.get("adaptive")]
+    if not ctx.replay:
+        acases += [gen_adaptive(ctx.rng) for _ in range(n_valid // 6)]
+    if acases:
+        import c11
+        a11 = [to_c11(c) for c in acases]
+        aouts = run_impl(ctx, "c11", "impl_adaptive", a11, per_case_timeout=180)
+        verdicts = [("worker error: " + str(o.get("err"))) if "err" in o else c11.adaptive_verdict(c, o) for c, o in zip(a11, aouts)]
+        gfa = set(c11.adaptive_guards(ctx, a11, "c09"))
+        listed = {f.get("guard") for f in known_findings("C09")}
+        fresh = [i for i, v in enumerate(verdicts) if v and not (i in gfa and "g_dde_slots_aligned" in listed)]
+        ctx.note(f"adaptive-solver stream (solver='scipy', vectorized and not, closed form of the delayed ramps; labelled tolerance "
+                 f"{c11.ADAPTIVE_TOL}): {len(acases)} circuits, {sum(1 for v in verdicts if v)} failing, {len(gfa)} outside Gamma.g_dde_slots_aligned "
+                 f"({sum(1 for i in gfa if verdicts[i])} of them failing), unexplained failures {len(fresh)}")
+        for i in fresh[:2]:
+            violation(ctx, write_replay(ctx, "counterexample", dict(case=acases[i], what=verdicts[i], implementation_output=aouts[i])))
     dec_cases = [] if ctx.replay else [gen_decimal(ctx.rng) for _ in range(n_valid // 5)]
     if ctx.replay and cases and cases[0].get("observe") == "first_change":
         dec_cases, cases = cases, []
@@ -574,7 +613,7 @@ def check(ctx):
     nt = {canon(c) for i, c in enumerate(cases) if nontrivial(c) and i in in_guard}
     dt_of = lambda c: Fr(c["dt"])
     frac_q = lambda c: sorted({str((Fr(e[3]) / dt_of(c)) % 1) for e in c["edges"] if e[3] not in ("nokey", "none")})
-    hist = dict(with_spread_sibling=sum(1 for c in cases if c.get("spread_sinks")), relay_circuits=sum(1 for c in cases if c.get("relay")), with_taps=sum(1 for c in cases if c.get("taps")), int_delays=sum(1 for c in cases if c.get("int_delays")), connectivity_stream=len(ci), decimal_step_stream=len(dec_cases), decimal_inexact_quotient=sum(1 for c in dec_cases if c["inexact_quotient"]),
+    hist = dict(adaptive_stream=len(acases), with_spread_sibling=sum(1 for c in cases if c.get("spread_sinks")), relay_circuits=sum(1 for c in cases if c.get("relay")), with_taps=sum(1 for c in cases if c.get("taps")), int_delays=sum(1 for c in cases if c.get("int_delays")), connectivity_stream=len(ci), decimal_step_stream=len(dec_cases), decimal_inexact_quotient=sum(1 for c in dec_cases if c["inexact_quotient"]),
                 vectorized=sum(1 for c in cases if c["vectorize"]), heun=sum(1 for c in cases if c["solver"] == "heun"),
                 in_guard=len(in_guard), guard_violating={g: len(gfalse[g]) for g in GUARDS},
                 raised=sum(1 for o in outs if isinstance(o, dict) and "raised" in o),
